@@ -1132,9 +1132,53 @@ def rule_u15(F):
     return r
 
 
+def rule_u16(F):
+    """Discovery of a script directory terminates on every file tree: the recursive walk (`find_files` -> `process_subdir` ->
+    `find_files`) descends only into entries that ARE directories - decided by `DirEntry::file_type`, which does not follow symbolic
+    links.  A test that follows links (`Path::is_dir`, `fs::metadata`, `Path::exists` + read_dir) walks a link back into the tree
+    again and again; nothing records visited directories (two links `util/a -> .`, `util/b -> .`: 2^40 directory reads)."""
+    r = RuleResult("C06.U16", "module discovery recurses only into real directories (the test does not follow symbolic links): the walk terminates on cyclic links", floor=1)
+    fam = [b for b in F.bodies_in(["src/file_tree.rs"]) if b.mir and "::tests::" not in b.path and "{closure" not in b.path]
+    by = {b.path: b for b in fam}
+    # the recursive family: functions from which a read_dir is reachable and that are reachable from themselves
+    def callees(b):
+        return {mir.callee(t) for _, t in mir.calls(b) if (mir.callee(t) or "") in by}
+    rec = set()
+    for b in fam:
+        seen, work = set(), list(callees(b))
+        while work:
+            x = work.pop()
+            if x in seen:
+                continue
+            seen.add(x)
+            work += list(callees(by[x]))
+        if b.path in seen:
+            rec.add(b.path)
+    if not rec:
+        r.missing("the recursive directory walk in src/file_tree.rs")
+        return r
+    FOLLOWS = ("std::path::Path::is_dir", "std::path::Path::is_file", "std::fs::metadata", "std::path::Path::metadata", "std::fs::canonicalize", "std::path::Path::canonicalize", "std::path::Path::read_link")
+    for p in sorted(rec):
+        b = by[p]
+        if not any((mir.callee_def(t) or "").endswith("fs::read_dir") for _, t in mir.calls(b)):
+            continue
+        defs = mir.Defs(b)
+        descents = [(bi, t) for bi, t in mir.calls(b) if (mir.callee(t) or "") in rec or any((mir.callee(t) or "") == q for q in by if by[q].path in rec)]
+        follows = [(bi, t) for bi, t in mir.calls(b) if (mir.callee_def(t) or "") in FOLLOWS]
+        typed = [bi for bi, t in mir.calls(b) if (mir.callee_def(t) or "").endswith("DirEntry::file_type")]
+        dom = mir.dominators(b)
+        ok = bool(descents) and all(any(tb in dom[db] for tb in typed) for db, _ in descents)
+        r.inst("%s" % p, {"fn": p, "descents": len(descents), "decided_by_DirEntry_file_type": ok, "link_following_tests": [hir.last(mir.callee_def(t)) for _, t in follows]})
+        if not ok or follows:
+            r.bad(p, "descent decided by a test that follows symbolic links", relfile(b.file), (follows[0][1].get("line") if follows else b.line),
+                  "%s descends into an entry without DirEntry::file_type having been asked on the way (or asks %s, which follows symbolic links): a link back into the tree is walked "
+                  "again and again, the discovery of a script directory with two such links practically never ends" % (hir.last(p), [hir.last(mir.callee_def(t)) for _, t in follows] or "nothing"))
+    return r
+
+
 def rules(ctx):
     F = ctx["F"]
-    return [rule_u1(F), rule_u2(F), rule_u3(F), rule_u3b(F), rule_u4(F), rule_u5(F), rule_u6(F), rule_u7(F), rule_u8(F), rule_u9(F), rule_u10(F), rule_u11(F), rule_u12(F), rule_u13(F), rule_u14(F), rule_u15(F)]
+    return [rule_u1(F), rule_u2(F), rule_u3(F), rule_u3b(F), rule_u4(F), rule_u5(F), rule_u6(F), rule_u7(F), rule_u8(F), rule_u9(F), rule_u10(F), rule_u11(F), rule_u12(F), rule_u13(F), rule_u14(F), rule_u15(F), rule_u16(F)]
 
 
 def canary(C):
